@@ -646,7 +646,8 @@ ARR_OPS = [
     'y = [x, x];', 'y[0][0] = 70;', 'y = m(x);', 'm(z);', 'y = x[0];',
 ]
 ARR_ERR = ['{P} x[3];', '{P} x[0 - 1];', 'x[0.5] = 1;', '{P} x["1"];', '{P} x["a"];', 'x[{LEN}(x)] = 1;', 'z = {RM}(x, 0 - 1);', 'z = {RM}(x, 3);', 'z = {RM}(x, 0.5);', 'z = {RM}(x, "1");',
-           '{P} {LEN}(x) + 1;', '{P} {LEN}(z) == 0;', 'z = {AP}(x);', 'z = {AP}(5, 1);', '{P} x[nil];', '{P} x[{TRUE}];', '{P} x[[0]];', 'x["0"] = 5;', '{P} x[2.0];', '{P} x[1e];']
+           '{P} {LEN}(x) + 1;', '{P} {LEN}(z) == 0;', 'z = {AP}(x);', 'z = {AP}(5, 1);', '{P} x[nil];', '{P} x[{TRUE}];', '{P} x[[0]];', 'x["0"] = 5;', '{P} x[2.0];', '{P} x[1e];',
+           '{P} x[0.5];', '{P} x[1.5];', '{P} x[2.9];', '{P} x[0 - 0.5];', '{P} x[1 + 0.5];', 'x[1.5] = 1;', 'x[0 - 0.5] = 1;', '{P} x[{LEN}(x) - 0.5];', '{P} x[(-1)];', '{P} x[-1];', 'x[-1] = 7;', '{P} y[0][0];', '{P} x[1][0];']
 
 def c11(tier, rng):
     sub = lambda s_: s_.replace('{AP}', N['append']).replace('{RM}', N['remove']).replace('{LEN}', N['len']).replace('{P}', P).replace('{TRUE}', TRUE)
@@ -1015,7 +1016,12 @@ def c16(tier, rng):
     for n in ([3, 8, 1000000, 2097152] if tier == 'quick' else [3, 8, 1, 0, 64, 1000000, 2097152, 4294967296, 100000000]):
         ps = num_producers(n) if n else ['0', '(1 - 1)', '(5 & 2)', '(0 | 0)', f'{N["len"]}([])', f'{N["round"]}(0.2)', 'rs(0)', '(7 ^ 7)', '(1 >> 1)']
         emit('number', n, ps, str(n), b'x\ny\n')
-    rule = (f'{len(contexts)} one-hole contexts (print alone / nested, both sides of ==, condition, !, ||, &&, index, key, every operator position, every built-in argument, callee, property base) x 7 strings and {4 if tier == "quick" else 9} numbers, '
+    # numbers that are not non-negative integers: fractions, negatives, zero written several ways
+    def frac_producers(t):
+        return [t, f'({t} + 0)', f'(2 * {t} / 2)', f'rs({t})', f'[{t}][0]', f'({{k: {t}}}).k', f'(0 - (0 - {t}))', f'{N["max"]}({t}, {t})', f'({t} * 1)', f'(("" + {t}) * 1)']
+    for t in (['1.5', '(-1)', '0', '2.5'] if tier == 'quick' else ['1.5', '(-1)', '0', '2.5', '0.5', '(-0.5)', '(-2)', '4.000001', '1e21', '0.1']):
+        emit('number', t, frac_producers(t), t, b'x\ny\n')
+    rule = (f'{len(contexts)} one-hole contexts (print alone / nested, both sides of ==, condition, !, ||, &&, index, key, every operator position, every built-in argument, callee, property base) x 7 strings and {8 if tier == "quick" else 19} numbers (non-negative integers, fractions, negatives, zero), '
             'each produced 6..20 ways (literal, concatenation, property, element, function result, ইনপুট, keys/values listing; arithmetic, every bitwise operator, shifts, built-ins); all producers of one value must behave identically in each context (implementation alone) and as the model says. Non-trivial = all.')
     return {'cases': cases, 'rule': rule, 'exhaustive': True, 'oracles': [oracle_same_in_group]}
 
